@@ -292,7 +292,10 @@ class ClassInfo:
         return f"{self.module.name}.{self.name}"
 
     def method(self, name: str, kind: Optional[str] = None) -> Optional[FuncInfo]:
-        for f in self.methods.get(name, []):
+        fs = self.methods.get(name, [])
+        # `@typing.overload` stubs are placeholders: the definition that follows them is the method
+        real = [f for f in fs if not any((dotted(d) or "").split(".")[-1] == "overload" for d in getattr(f.node, "decorator_list", []))] or fs
+        for f in real:
             if kind is None and f.kind != "setter":
                 return f
             if kind is not None and f.kind == kind:
